@@ -447,7 +447,8 @@ func pyOracles(u pyUniverse) (oracles sx.V, direct sx.V) {
 		for _, v := range mvs {
 			ml = append(ml, sx.B(v.Version))
 		}
-		dir = append(dir, sx.L(sx.B(r.pkg), sx.B(r.req), sx.Bool(merr == nil), sx.L(ml...), sx.L(withPre...)))
+		dir = append(dir, sx.L(sx.B(r.pkg), sx.B(r.req), sx.Bool(merr == nil), sx.L(ml...), sx.L(withPre...),
+			sx.Bool(err == nil && c.HasPrerelease())))
 	}
 	var vlt []sx.V
 	seenLt := map[[2]string]bool{}
@@ -503,7 +504,7 @@ func pyTableWF(rc *pyRecClient) bool {
 	for _, e := range rc.matching {
 		if e.val.Nth(0).Int() == 1 {
 			for _, v := range e.val.Nth(1).List() {
-				if v.Nth(0).Str() != e.key.Nth(0).Str() {
+				if v.Nth(0).Str() != e.key.Nth(0).Str() || v.Nth(1).Int() != int64(resolve.Concrete) {
 					return false
 				}
 			}
